@@ -16,7 +16,8 @@ theorem insert_identity_full {t t' : TTN} {cid pid new : Id} (h : t.WF) (hnew : 
     t'.WF ∧ ∃ C P, t.N cid = some C ∧ t.N pid = some P ∧ C.parent = some pid ∧
       t'.S = subdivideS t.S cid pid new C.children P.parent P.children ∧ t'.root = t.root ∧
       (∀ k, k ≠ new → dget t'.tensors k = dget t.tensors k) ∧
-      (∀ k n, k ≠ new → t.N k = some n → ∃ n', t'.N k = some n' ∧ n'.perm = n.perm ∧ n'.shp = n.shp) := by
+      (∀ k n, k ≠ new → t.N k = some n → ∃ n', t'.N k = some n' ∧ n'.perm = n.perm ∧ n'.shp = n.shp) ∧
+      (∃ ax, t.Leg cid pid ax ∧ t'.logical new = some [ax, ax]) := by
   unfold TTN.insertIdentity at hs
   cases hC : dget t.nodes cid with
   | none => simp [hC, bind, Option.bind] at hs
@@ -103,7 +104,7 @@ theorem insert_identity_full {t t' : TTN} {cid pid new : Id} (h : t.WF) (hnew : 
                             · by_cases h3 : k = pid
                               · simp [h1, h2, h3, hpn, hpc, structOf, r3, r4]
                               · simp [h1, h2, h3]
-                        refine ⟨⟨?_, ?_, ?_⟩, C, P, hCN, hPN, hcp, hS, rfl, ?_, ?_⟩
+                        refine ⟨⟨?_, ?_, ?_⟩, C, P, hCN, hPN, hcp, hS, rfl, ?_, ?_, ?_⟩
                         rotate_left 3
                         · intro k hk
                           simp [dget_dset, hk]
@@ -122,6 +123,39 @@ theorem insert_identity_full {t t' : TTN} {cid pid new : Id} (h : t.WF) (hnew : 
                                 have hcp' : ¬ cid = pid := fun e => hpc e.symm
                                 rw [h2]; simp [hcn, hcp'], rfl, rfl⟩
                             · exact ⟨n, by simp [hk, h2, h3, hn], rfl, rfl⟩
+                        · -- the identity carries the axis of the bond at both of its legs
+                          have hfit := h.fit cid C childTensor hCN hct
+                          have hdim' : dim = bondAxis.dim := by
+                            rw [← hfit] at hdim
+                            simp only [shapeOf, List.getElem?_map, hba, Option.map_some, Option.some.injEq] at hdim
+                            exact hdim.symm
+                          have hax : (⟨bondAxis.lab, dim⟩ : Axis) = bondAxis := by rw [hdim']
+                          obtain ⟨Lc, hLc, _⟩ := logical_some h hCN
+                          have hLc0 : Lc[0]? = some bondAxis := by
+                            rw [logical_eq hCN hct] at hLc
+                            rw [transposeT_getElem? hLc 0, ha0]
+                            exact hba
+                          refine ⟨bondAxis, ?_, ?_⟩
+                          · unfold TTN.Leg
+                            rw [legPairs_eq hCN hLc]
+                            unfold NodeS.neighbours
+                            rw [hcp]
+                            cases Lc with
+                            | nil => simp at hLc0
+                            | cons x Lc' =>
+                              simp only [List.getElem?_cons_zero, Option.some.injEq] at hLc0
+                              subst hLc0
+                              simp
+                          · have hNn := hN new
+                            simp only [if_true] at hNn
+                            have hTn : dget (dset t.tensors new
+                                [(⟨bondAxis.lab, dim⟩ : Axis), ⟨bondAxis.lab, dim⟩]) new =
+                                some [bondAxis, bondAxis] := by
+                              rw [dget_dset, hax]; simp
+                            rw [logical_eq hNn hTn]
+                            apply transposeT_pair _ _ hwI.perm
+                            rw [← hwI.shp, j3, i3]
+                            rfl
                         · have hT : TTN.hasT (⟨dset (dset (dset t.nodes cid { C with parent := some new }) pid P') new idNode2,
                               dset t.tensors new [⟨bondAxis.lab, dim⟩, ⟨bondAxis.lab, dim⟩], t.root, t.nextLabel⟩ : TTN) =
                               fun k => k == new || t.hasT k := by
